@@ -70,6 +70,36 @@ pub fn run() {
             );
             continue;
         }
+        if a.get("op").map(|s| s == "fullfd").unwrap_or(false) {
+            // the server goes away (unused) while the process's descriptor table is FULL: what it created in the file system must
+            // still be removed (whatever the clean-up needs, the server's own descriptor is there to be released first)
+            let t0 = tmp_entries();
+            let (server, name) = IpcOneShotServer::<M>::new().unwrap();
+            let mut fill = Vec::new();
+            let mut lim = libc::rlimit { rlim_cur: 0, rlim_max: 0 };
+            unsafe { libc::getrlimit(libc::RLIMIT_NOFILE, &mut lim) };
+            let old = lim;
+            // a small table, so that filling it is quick: everything open now plus a few
+            let top = open_fds().iter().max().copied().unwrap_or(10) as u64 + 40;
+            lim.rlim_cur = top.min(old.rlim_max);
+            unsafe { libc::setrlimit(libc::RLIMIT_NOFILE, &lim) };
+            loop {
+                let fd = unsafe { libc::open(b"/dev/null\0".as_ptr() as *const libc::c_char, libc::O_RDONLY | libc::O_CLOEXEC) };
+                if fd < 0 {
+                    break;
+                }
+                fill.push(fd);
+            }
+            drop(server);
+            for fd in fill.iter() {
+                unsafe { libc::close(*fd) };
+            }
+            unsafe { libc::setrlimit(libc::RLIMIT_NOFILE, &old) };
+            let gone = !std::path::Path::new(&name).exists();
+            let dir_gone = std::path::Path::new(&name).parent().map(|p| !p.exists()).unwrap_or(true);
+            println!("{}", json!({"kind":"fullfd","id":id,"filled":fill.len(),"gone":gone,"dir_gone":dir_gone,"tmp_before":t0,"tmp_after":tmp_entries()}));
+            continue;
+        }
         if a.get("op").map(|s| s == "forkaccept").unwrap_or(false) {
             // the server is created in one process and accepted (or dropped unused) in a forked child - the hand-to-a-worker pattern:
             // once accept has returned there, or the server was dropped there, nothing created for the rendezvous may remain
